@@ -2102,6 +2102,10 @@ impl RawTableInner {
                 // SAFETY: The caller must uphold the safety contract for
                 // `drop_elements` method.
                 item.drop();
+                #[cfg(hashbrown_verif)]
+                if verif_hooks::unwinding() {
+                    return;
+                }
             }
         }
     }
@@ -2157,6 +2161,10 @@ impl RawTableInner {
             unsafe {
                 // SAFETY: The caller must uphold the safety contract for `drop_inner_table` method.
                 self.drop_elements::<T>();
+                #[cfg(hashbrown_verif)]
+                if verif_hooks::unwinding() {
+                    return;
+                }
                 // SAFETY:
                 // 1. We have checked that our table is allocated.
                 // 2. The caller must uphold the safety contract for `drop_inner_table` method.
@@ -2785,6 +2793,10 @@ impl RawTableInner {
         for full_byte_index in self.full_buckets_indices() {
             // This may panic.
             let hash = hasher(self, full_byte_index);
+            #[cfg(hashbrown_verif)]
+            if verif_hooks::unwinding() {
+                return Ok(());
+            }
 
             // SAFETY:
             // We can use a simpler version of insert() here since:
@@ -2899,6 +2911,10 @@ impl RawTableInner {
             'inner: loop {
                 // Hash the current item
                 let hash = hasher(*guard, i);
+                #[cfg(hashbrown_verif)]
+                if verif_hooks::unwinding() {
+                    return;
+                }
 
                 // Search for a suitable place to put it
                 //
@@ -3215,6 +3231,10 @@ impl<T: Clone, A: Allocator + Clone> Clone for RawTable<T, A> {
                 // dropping the elements, so there is no double drop, since `items`
                 // will be equal to zero.
                 self_.table.drop_elements::<T>();
+                #[cfg(hashbrown_verif)]
+                if verif_hooks::unwinding() {
+                    return;
+                }
 
                 // If necessary, resize our table to match the source.
                 if self_.buckets() != source.buckets() {
@@ -3243,6 +3263,10 @@ impl<T: Clone, A: Allocator + Clone> Clone for RawTable<T, A> {
                 // inside the `clone_from_impl` function will take care of that, dropping all
                 // cloned elements if necessary. Our `ScopeGuard` will clear the table.
                 self_.clone_from_spec(source);
+                #[cfg(hashbrown_verif)]
+                if verif_hooks::unwinding() {
+                    return;
+                }
 
                 // Disarm the scope guard if cloning was successful.
                 ScopeGuard::into_inner(self_);
@@ -3311,6 +3335,10 @@ impl<T: Clone, A: Allocator + Clone> RawTable<T, A> {
             let index = source.bucket_index(&from);
             let to = guard.1.bucket(index);
             to.write(from.as_ref().clone());
+            #[cfg(hashbrown_verif)]
+            if verif_hooks::unwinding() {
+                return;
+            }
 
             // Update the index in case we need to unwind.
             guard.0 = index + 1;
@@ -3663,6 +3691,10 @@ impl<T> RawIter<T> {
         if T::NEEDS_DROP && self.items != 0 {
             for item in self {
                 item.drop();
+                #[cfg(hashbrown_verif)]
+                if verif_hooks::unwinding() {
+                    return;
+                }
             }
         }
     }
@@ -3878,6 +3910,10 @@ unsafe impl<#[may_dangle] T, A: Allocator> Drop for RawIntoIter<T, A> {
         unsafe {
             // Drop all remaining elements
             self.iter.drop_elements();
+            #[cfg(hashbrown_verif)]
+            if verif_hooks::unwinding() {
+                return;
+            }
 
             // Free the table
             if let Some((ptr, layout, ref alloc)) = self.allocation {
@@ -3893,6 +3929,10 @@ impl<T, A: Allocator> Drop for RawIntoIter<T, A> {
         unsafe {
             // Drop all remaining elements
             self.iter.drop_elements();
+            #[cfg(hashbrown_verif)]
+            if verif_hooks::unwinding() {
+                return;
+            }
 
             // Free the table
             if let Some((ptr, layout, ref alloc)) = self.allocation {
@@ -3969,6 +4009,10 @@ impl<T, A: Allocator> Drop for RawDrain<'_, T, A> {
         unsafe {
             // Drop all remaining elements. Note that this may panic.
             self.iter.drop_elements();
+            #[cfg(hashbrown_verif)]
+            if verif_hooks::unwinding() {
+                return;
+            }
 
             // Reset the contents of the table now that all elements have been
             // dropped.
@@ -4432,3 +4476,7 @@ mod test_map {
         assert_eq!(dropped.load(Ordering::SeqCst), 1);
     }
 }
+
+#[cfg(hashbrown_verif)]
+#[path = "verif_hooks.rs"]
+pub mod verif_hooks;
